@@ -146,3 +146,21 @@ Example C37_example :
      Ret (VSet []); Ret VUnit; Ret (VInt 3); Ret (VBool true); Ret VUnit; Ret (VInt 5);
      Ret VUnit; Ret VUnit; Ret (VBool true); Ret VRestartRejected; Ret (VInt 3); Blocked].
 Proof. vm_compute. reflexivity. Qed.
+
+(* The compare-and-swap loop (load again after a failed swap) ends under fair scheduling: a
+   thread that gets 2*(its phase - current phase)+2 turns has returned, whatever the other
+   threads do in between - every failed swap means another thread moved the phase forward. *)
+Theorem C37_cas_set_phase_terminates :
+  forall args mem sched i a, nth_error args i = Some a ->
+    (2 * cs_dist a mem + 2 <= count_occ Nat.eq_dec sched i)%nat ->
+    exists t', nth_error (snd (cs_final true mem (cs_threads args) sched)) i = Some t' /\ cs_at t' = CsDone.
+Proof. exact cs_cas_terminates. Qed.
+Print Assumptions C37_cas_set_phase_terminates.
+
+(* A loop that keeps the value loaded before the loop never returns once its swap failed:
+   SetPhase(Verify) loads 0, SetPhase(Share) completes, and the first thread spins for good. *)
+Theorem C37_stale_cas_loop_never_returns :
+  forall n, nth_error (snd (cs_stale_final 0 (cs_threads [1; 3]) ([0; 1; 1]%nat ++ repeat 0%nat n))) 0%nat
+            = Some {| cs_arg := 1; cs_at := CsLoaded 0 |}.
+Proof. exact cs_stale_loop_spins. Qed.
+Print Assumptions C37_stale_cas_loop_never_returns.
